@@ -160,7 +160,7 @@ def C10_5(ctx, facts):
 
 
 def C10_6(ctx, facts):
-    f = facts.fn("client::conn::transport::tcp::TcpConnecting::connect::{closure#0}")
+    f = facts.unit(facts.fn("client::conn::transport::tcp::TcpConnecting::connect::{closure#0}"))
     ctx.touched(f)
     me = [c for c in f.calls() if c.matches(r"Result.*::map_err$")]
     ctx.floor("TcpConnecting::connect|map_err", len(me), 1, "map_err on the happy-eyeballs result")
@@ -196,7 +196,7 @@ def C10_8(ctx, facts):
     list becomes an attempt in the EyeballSet before the next pop / before the set is awaited / before any return.  (An early
     return - e.g. a `?` on per-candidate socket set-up - would report one candidate's failure although others could still succeed.)"""
     from core import L_variant
-    f = facts.fn("client::conn::transport::tcp::TcpConnecting::connect::{closure#0}")
+    f = facts.unit(facts.fn("client::conn::transport::tcp::TcpConnecting::connect::{closure#0}"))
     ctx.touched(f)
     pops = f.calls("client::conn::dns::SocketAddrs::pop")
     pushes = f.calls("happy_eyeballs::EyeballSet::push")
